@@ -29,7 +29,16 @@ type Sample struct {
 	Witness   map[string]uint64 `json:"witness,omitempty"`
 }
 
+// SelfTestCase is one explored path with a concrete witness, for the native/interpreter differential.
+type SelfTestCase struct {
+	Nondet   map[string]uint64
+	Covers   []string
+	Observed []string
+	End      string
+}
+
 type Report struct {
+	SelfTests    []SelfTestCase
 	Entry        string
 	Paths        int
 	Ends         map[string]int
@@ -157,6 +166,9 @@ func Explore(prog *ssa.Program, entry *ssa.Function, cfg Config, opts ExploreOpt
 			}
 			sig := res.End.Kind + "|" + strings.Join(res.Covers, ",")
 			rep.PathSigs[sig]++
+			if rep.PathSigs[sig] == 1 && res.End.Kind == "done" && len(res.Violations) == 0 && len(rep.SelfTests) < 16 {
+				rep.SelfTests = append(rep.SelfTests, SelfTestCase{Nondet: m.fullWitness(), Covers: res.Covers, Observed: res.Observed, End: res.End.Kind})
+			}
 			if rep.PathSigs[sig] == 1 && len(rep.Samples) < 12 {
 				rep.Samples = append(rep.Samples, Sample{End: res.End.Kind + ":" + res.End.Msg, Decisions: len(res.Decisions),
 					Covers: res.Covers, Observed: res.Observed, Witness: m.witness()})
@@ -222,6 +234,17 @@ func Explore(prog *ssa.Program, entry *ssa.Function, cfg Config, opts ExploreOpt
 	rep.Wall = time.Since(t0)
 	sort.Slice(rep.Violations, func(i, j int) bool { return rep.Violations[i].Label < rep.Violations[j].Label })
 	return rep, firstErr
+}
+
+func (m *Machine) fullWitness() map[string]uint64 {
+	w := map[string]uint64{}
+	for _, v := range m.ctx.Vars {
+		w[v.Name] = m.model[v.Name]
+	}
+	for k, v := range m.choiceLog {
+		w[k] = v
+	}
+	return w
 }
 
 // witness returns the current model restricted to the path's variables.
